@@ -230,7 +230,9 @@ theorem sw_proj_round_trip {K : Codec F} {canon : F → Prop} (hK : CodecOK K ca
   | true => rfl
   | false =>
     simp only [Bool.false_eq_true, if_false]
-    split <;> rfl
+    by_cases hv : vd = .yes ∧ swCheck E ⟨x, y, false⟩ = false
+    · rw [if_pos hv, if_pos hv]
+    · rw [if_neg hv, if_neg hv]; rfl
 
 /-- `into_affine` never panics … -/
 theorem sw_to_affine_total (P : SWProj F) : ∃ A, swToAffine P = .ok A := swToAffine_total P
@@ -287,7 +289,9 @@ theorem te_proj_round_trip {K : Codec F} {canon : F → Prop} (hK : CodecOK K ca
     | no => exact te_round_trip_uncompressed hK E A hx hy vd bs hs tl
   unfold runM at h ⊢
   rw [teProjDeserialize_apply, h]
-  split <;> rfl
+  by_cases hv : vd = .yes ∧ teCheck E A = false
+  · rw [if_pos hv, if_pos hv]
+  · rw [if_neg hv, if_neg hv]; rfl
 
 theorem te_to_affine_total (P : TEProj F) (hz : P.z ≠ 0) : ∃ A, teToAffine P = .ok A := teToAffine_total P hz
 
@@ -354,7 +358,7 @@ theorem te_round_trip_compressed_fp_partial {c : FpCfg} (h : WFc c) (hp : c.p.Pr
 
 /-- non-vacuity on the toy curve `y² = x³ + 7` over `F_13` (group order 7, cofactor one):
     every hypothesis of `sw_round_trip_fp` holds, and the model computes what the theorem says -/
-example : Nat.Prime (⟨13, 1⟩ : FpCfg).p := by norm_num
+example : Nat.Prime (⟨13, 1⟩ : FpCfg).p := by decide +kernel
 example : SqrtOK (fpCodec ⟨13, 1⟩) (fun x => x.val < 13) := fpSqrtOK_13
 example : swIsOnCurve (swCfgFp (p := 13) ⟨0⟩ ⟨7⟩ true 7) ⟨⟨7⟩, ⟨8⟩, false⟩ = true := by decide +kernel
 example : runM (swDeserialize (fpCodec ⟨13, 1⟩) (swCfgFp ⟨0⟩ ⟨7⟩ false 7) .yes .yes) ([135] ++ [1]) =
@@ -387,8 +391,7 @@ theorem fp_unique {c : FpCfg} (h : WFc c) {Fl : Type} [Flags Fl] (hf : bitSize F
   have h2 := (fpDe_ok_inv h hf hd).2.1
   have h3 := fpDe_ok_lt h hd
   subst h2
-  simp only [Nat.zero_add]
-  exact ⟨h1, rfl, h3⟩
+  exact ⟨by simpa using h1, by simp, h3⟩
 
 /-- with a `FlagsOK` flag type -/
 theorem fp_unique' {c : FpCfg} (h : WFc c) {Fl : Type} [Flags Fl] (hF : FlagsOK Fl)
@@ -407,26 +410,37 @@ example : runM (fpDeFlags ⟨2 ^ 63 - 25, 1⟩ SWFlags) [5, 0, 0, 0, 0, 0, 0, 0,
 example : runM (fpDeFlags ⟨2 ^ 63 - 25, 1⟩ SWFlags) [5, 0, 0, 0, 0, 0, 0, 0x80, 0x40] = .err .invalid ⟨[], 9⟩ := by
   decide +kernel
 
+/-- the hypothesis `hb` is only the typing of the input (`u8`s): on a `List Nat` that is not a byte
+    string the statement fails -/
+example : runM (fpDeFlags ⟨2 ^ 63 - 25, 1⟩ EmptyFlags) [256, 0, 0, 0, 0, 0, 0, 0] = .ok (⟨256⟩, .mk) ⟨[], 8⟩ ∧
+    fpSerFlags ⟨2 ^ 63 - 25, 1⟩ EmptyFlags ⟨256⟩ .mk = .ok [0, 1, 0, 0, 0, 0, 0, 0] := by decide +kernel
+
 theorem ext_unique_flags {c : FpCfg} (h : WFc c) {Fl : Type} [Flags Fl] (hf : bitSize Fl ≤ 8)
     (hsub : FlagsSub Fl) (t : Tower) (bs : List Nat) (hb : ∀ b ∈ bs, b < 256) (v : ExtV c.p) (fl : Fl)
     (s : Rd) (hd : runM (extDeFlags c Fl t) bs = .ok (v, fl) s) :
     extSerFlags c Fl v fl = .ok (bs.take s.used) ∧ s.used = extSizeFlags c Fl t ∧ v.hasShape t ∧ v.reduced := by
   obtain ⟨h1, h2, h3⟩ := (extUniq h t).1 Fl hf hsub ⟨bs, 0⟩ s v fl hb hd
   obtain ⟨-, rfl⟩ := (extDeFlags_reads h Fl t).ok_used _ _ _ hd
-  simp only [Nat.zero_add]
-  exact ⟨h3, rfl, h1, h2⟩
+  exact ⟨by simpa using h3, by simp, h1, h2⟩
 
 theorem ext_unique {c : FpCfg} (h : WFc c) (t : Tower) (cm cm' : Compress) (vd : Validate) (bs : List Nat)
     (hb : ∀ b ∈ bs, b < 256) (v : ExtV c.p) (s : Rd) (hd : runM (extDe c t cm vd) bs = .ok v s) :
     extSer c v cm' = .ok (bs.take s.used) ∧ s.used = extSize c t cm' ∧ v.hasShape t ∧ v.reduced := by
   obtain ⟨h1, h2, h3⟩ := (extUniq h t).2 cm vd ⟨bs, 0⟩ s v hb hd
   obtain ⟨-, rfl⟩ := (extDe_reads h t cm vd).ok_used _ _ _ hd
-  simp only [Nat.zero_add]
-  exact ⟨h3, rfl, h1, h2⟩
+  exact ⟨by simpa [extSer] using h3, by simp [extSize], h1, h2⟩
 
 example : runM (extDeFlags ⟨13, 1⟩ SWFlags (.quad .base)) [3, 76] =
     .ok (.quad (.base ⟨3⟩) (.base ⟨12⟩), .pointAtInfinity) ⟨[], 2⟩ := by decide +kernel
 example : runM (extDeFlags ⟨13, 1⟩ SWFlags (.quad .base)) [13, 76] = .err .invalid ⟨[76], 1⟩ := by decide +kernel
+
+/-- observation (not a defect of the model: it is what the Rust code does): uniqueness does NOT extend to
+    uncompressed short-Weierstrass points — the sign bit next to a transmitted `y` is never compared
+    with `y`, so `(7, 8)` on `y² = x³ + 7` over `F_13` has two accepted encodings -/
+example : runM (swDeserialize (fpCodec ⟨13, 1⟩) (swCfgFp ⟨0⟩ ⟨7⟩ false 7) .no .yes) [7, 136] =
+      .ok ⟨⟨7⟩, ⟨8⟩, false⟩ ⟨[], 2⟩ ∧
+    runM (swDeserialize (fpCodec ⟨13, 1⟩) (swCfgFp ⟨0⟩ ⟨7⟩ false 7) .no .yes) [7, 8] =
+      .ok ⟨⟨7⟩, ⟨8⟩, false⟩ ⟨[], 2⟩ := by decide +kernel
 
 /-! ## 7. Sign rule -/
 
